@@ -1,6 +1,7 @@
 (* Pins for C03: restated statements + assumptions. Generated once by tools/mkpins.py, then committed. *)
 Require Import VT.Tac VT.ListN VT.Cell VT.Row VT.Grid VT.Screen VT.Vte VT.Perform VT.Parser VT.Emit VT.RowInv VT.GridInv VT.TextInv VT.ScreenInv VT.EmitSafe VT.EmitTextSafe.
-Require Import VT.Props.C03.
+Require Import VT.Tac VT.ListN VT.Grid VT.Screen VT.Vte VT.Perform VT.GridInv VT.ScreenInv VT.CostMonad VT.CostModel VT.CostGrid VT.CostSpec VT.CostParser.
+Require Import VT.Props.C03 VT.Props.C03cost.
 Open Scope N_scope.
 Check C03_process : forall rows cols cap rz ops,
   size_ok rows -> size_ok cols -> Forall api_ok ops ->
@@ -27,3 +28,74 @@ Check C03_text_views : forall s start width sr sc er ecol r c,
   (exists o, visible_row (cur s) r = Ok o) /\
   (exists o, visible_cell (cur s) r c = Ok o).
 Print Assumptions C03_text_views.
+Check C03cost_tied : forall rz s a, fst (perform_c rz s a) = perform rz s a.
+Print Assumptions C03cost_tied.
+Check C03cost_iter_erase : forall A (f : A -> cres A) (h : A -> res A) n a,
+  (forall a, fst (f a) = h a) -> fst (iter_c n f a) = iter_res n h a.
+Print Assumptions C03cost_iter_erase.
+Check C03cost_iter_count : forall A (f : A -> cres A) k n,
+  (forall a, snd (f a) = k) ->
+  forall a b, fst (iter_c n f a) = Ok b -> snd (iter_c n f a) = N.of_nat n * k.
+Print Assumptions C03cost_iter_count.
+Check C03cost_bound : forall s a,
+  screen_ok s -> params_ok a -> first_param a <= 65535 ->
+  action_cost false s a <=
+  65535 * line_cost (grows (g s)) (gcols (g s)) + base_bound (grows (g s)) (gcols (g s)).
+Print Assumptions C03cost_bound.
+Check C03cost_bound_n : forall s a, screen_ok s -> params_ok a ->
+  action_cost false s a <=
+  first_param a * line_cost (grows (g s)) (gcols (g s)) + base_bound (grows (g s)) (gcols (g s)).
+Print Assumptions C03cost_bound_n.
+Check C03cost_param_free : forall s a,
+  screen_ok s -> params_ok a -> is_il_sd a = false ->
+  action_cost false s a <= base_bound (grows (g s)) (gcols (g s)).
+Print Assumptions C03cost_param_free.
+Check C03cost_il : forall rz s ps ig, screen_ok s ->
+  action_cost rz s (ACsi ps [] ig 76) = 1 + canon1 ps 1 * line_cost (grows (g s)) (gcols (g s)).
+Print Assumptions C03cost_il.
+Check C03cost_sd : forall rz s ps ig, screen_ok s ->
+  action_cost rz s (ACsi ps [] ig 84) = 1 + canon1 ps 1 * line_cost (grows (g s)) (gcols (g s)).
+Print Assumptions C03cost_sd.
+Check C03cost_ich_iterations : forall x n, grid_ok x ->
+  snd (insert_cells_c x n) <=
+  N.min n (gcols x - pcol x) * (gcols x + N.min n (gcols x - pcol x) + 4) + 2.
+Print Assumptions C03cost_ich_iterations.
+Check C03cost_ich : forall rz s ps ig, screen_ok s ->
+  action_cost rz s (ACsi ps [] ig 64) <= 2 * gcols (g s) * gcols (g s) + 4 * gcols (g s) + 3.
+Print Assumptions C03cost_ich.
+Check C03cost_ich_132 : forall x n, grid_ok x -> gcols x <= 132 -> snd (insert_cells_c x n) <= 35378.
+Print Assumptions C03cost_ich_132.
+Check C03cost_ich_old_tied : forall x n, fst (insert_cells_old_c x n) = insert_cells_old x n.
+Print Assumptions C03cost_ich_old_tied.
+Check C03cost_ich_old_refuted : forall x n, grid_ok x -> pcol x < gcols x ->
+  2 * n * (gcols x + 1) + n * n <= 2 * snd (insert_cells_old_c x n) + n.
+Print Assumptions C03cost_ich_old_refuted.
+Check C03cost_ich_old_65535 : forall x, grid_ok x -> pcol x < gcols x ->
+  65535 * gcols x + 2147450880 <= snd (insert_cells_old_c x 65535).
+Print Assumptions C03cost_ich_old_65535.
+Check C03cost_numeric : forall s a,
+  screen_ok s -> params_ok a -> first_param a <= 65535 ->
+  grows (g s) <= 50 -> gcols (g s) <= 132 -> action_cost false s a <= 15600000.
+Print Assumptions C03cost_numeric.
+Check C03cost_numeric_transposed : forall s a,
+  screen_ok s -> params_ok a -> first_param a <= 65535 ->
+  grows (g s) <= 132 -> gcols (g s) <= 50 -> action_cost false s a <= 21000000.
+Print Assumptions C03cost_numeric_transposed.
+Check C03cost_numeric_param_free : forall s a,
+  screen_ok s -> params_ok a -> is_il_sd a = false ->
+  grows (g s) <= 132 -> gcols (g s) <= 132 -> action_cost false s a <= 650000.
+Print Assumptions C03cost_numeric_param_free.
+Check C03cost_parser_init : pb p_init.
+Print Assumptions C03cost_parser_init.
+Check C03cost_parser : forall p bs, pb p ->
+  pb (fst (advance p bs)) /\
+  Forall (fun a => params_ok a /\ first_param a <= 65535) (snd (advance p bs)).
+Print Assumptions C03cost_parser.
+Check C03cost_parsed_action : forall p bs s a,
+  pb p -> In a (snd (advance p bs)) -> screen_ok s ->
+  action_cost false s a <=
+  65535 * line_cost (grows (g s)) (gcols (g s)) + base_bound (grows (g s)) (gcols (g s)).
+Print Assumptions C03cost_parsed_action.
+Check C03cost_resize : forall s a, screen_ok s ->
+  action_cost true s a <= action_cost false s a + resize_bound (grows (g s)) (gcols (g s)).
+Print Assumptions C03cost_resize.
